@@ -84,6 +84,7 @@ type h265Held struct {
 	panicked, err bool
 	pkt           interface{}
 	raw           []byte
+	kept          *h265Kept // sub-parser value used directly: the accessor results kept, see h265Kept
 }
 
 // h265Parse feeds payload to p (nil: a fresh H265Packet) and returns what the caller holds.
@@ -115,11 +116,74 @@ func (h h265Held) view(t *Toks) {
 		return
 	}
 	var tmp Toks
-	if try(func() { h265WriteView(&tmp, h.pkt, h.raw) }) {
+	if try(func() {
+		if h.kept != nil {
+			h.kept.write(&tmp)
+		} else {
+			h265WriteView(&tmp, h.pkt, h.raw)
+		}
+	}) {
 		t.Panic()
 		return
 	}
 	t.Ok().Tok(tmp.String())
+}
+
+// h265Kept is what a caller keeps of one decoded packet when it uses an exported sub-parser VALUE
+// directly and re-uses that value for the next payloads: the values the accessors returned right
+// after the successful Unmarshal (header words, the DONL pointer, the payload slice, the FirstUnit()
+// pointer and the OtherUnits() slice).  They are re-read (pointers followed, units asked for their
+// NalUnit()/NALUSize()/DOND()) only after the later payloads have been decoded.
+type h265Kept struct {
+	kind   string
+	hdr    codecs.H265NALUHeader
+	donl   *uint16
+	pay    []byte
+	first  *codecs.H265AggregationUnitFirst
+	others []codecs.H265AggregationUnit
+}
+
+type h265SubParser interface {
+	Unmarshal(payload []byte) ([]byte, error)
+}
+
+// h265SubParse feeds payload to the sub-parser value p and returns what the caller holds: outcome and
+// the accessor results of this decode.
+func h265SubParse(p h265SubParser, payload []byte) h265Held {
+	h := h265Held{raw: payload}
+	var err error
+	h.panicked = try(func() {
+		_, err = p.Unmarshal(payload)
+		if err != nil {
+			return
+		}
+		switch v := p.(type) {
+		case *codecs.H265SingleNALUnitPacket:
+			h.kept = &h265Kept{kind: "single", hdr: v.PayloadHeader(), donl: v.DONL(), pay: v.Payload()}
+		case *codecs.H265AggregationPacket:
+			h.kept = &h265Kept{kind: "ap", hdr: codecs.H265NALUHeader(binary.BigEndian.Uint16(payload[0:2])),
+				first: v.FirstUnit(), others: v.OtherUnits()}
+		}
+	})
+	h.err = err != nil
+	return h
+}
+
+func (k *h265Kept) write(t *Toks) {
+	t.Tok(k.kind)
+	h265WriteHdr(t, k.hdr)
+	if k.kind == "single" {
+		h265OptU16(t, k.donl)
+		t.Bytes(k.pay)
+		return
+	}
+	h265OptU16(t, k.first.DONL())
+	t.Nat(int(k.first.NALUSize())).Bytes(k.first.NalUnit())
+	t.Nat(len(k.others))
+	for _, u := range k.others {
+		h265OptU8(t, u.DOND())
+		t.Nat(int(u.NALUSize())).Bytes(u.NalUnit())
+	}
 }
 
 func h265Head(payload []byte) bool {
@@ -818,37 +882,71 @@ func h265DecCase(c *Case, mode bool, d *h265Desc, cut int) {
 	// the form under test (a fragment among fragments, …).
 	var before, after [][]byte
 	var rx *codecs.H265Packet
+	var sub h265SubParser
+	kindOf := map[string]int{"single": 0, "ap": 1, "fu": 2, "paci": 3}[d.Kind]
+	neighbour := func(same bool) []byte {
+		k := kindOf
+		if !same && c.R.Chance(1, 3) {
+			k = c.R.Intn(4)
+		}
+		n := h265GenDesc(c.R, k, mode)
+		if len(n.Payload) > 24 {
+			n.Payload = n.Payload[:24]
+		}
+		h265FixSemantics(c.R, n)
+		return n.encode()
+	}
 	if c.R.Bool() {
 		rx = &codecs.H265Packet{}
 		rx.WithDONL(mode)
-		kindOf := map[string]int{"single": 0, "ap": 1, "fu": 2, "paci": 3}[d.Kind]
-		neighbour := func() []byte {
-			k := kindOf
-			if c.R.Chance(1, 3) {
-				k = c.R.Intn(4)
-			}
-			n := h265GenDesc(c.R, k, mode)
-			if len(n.Payload) > 24 {
-				n.Payload = n.Payload[:24]
-			}
-			h265FixSemantics(c.R, n)
-			return n.encode()
-		}
 		for i, k := 0, c.R.Pick(0, 1, 1, 2); i < k; i++ {
-			before = append(before, neighbour())
+			before = append(before, neighbour(false))
 		}
 		if len(before) == 0 || c.R.Bool() {
-			after = append(after, neighbour())
+			after = append(after, neighbour(false))
 		}
 		c.Tag("rx=H265Packet-with-history")
+	} else if kindOf <= 1 && c.R.Bool() {
+		// The exported sub-parser of the form under test used directly, as ONE value that decodes the
+		// stream's packets of that form one after the other (H265SingleNALUnitPacket,
+		// H265AggregationPacket: every successful Unmarshal sets everything their accessors read).  The
+		// caller keeps what the accessors returned for the payload under test (h265Kept) and reads it
+		// after the value has decoded further payloads.
+		if kindOf == 0 {
+			q := &codecs.H265SingleNALUnitPacket{}
+			q.WithDONL(mode)
+			sub = q
+		} else {
+			q := &codecs.H265AggregationPacket{}
+			q.WithDONL(mode)
+			sub = q
+		}
+		for i, k := 0, c.R.Pick(0, 1, 1, 2); i < k; i++ {
+			before = append(before, neighbour(true))
+		}
+		for i, k := 0, c.R.Pick(0, 1, 1, 2); i < k; i++ {
+			after = append(after, neighbour(true))
+		}
+		c.Tag("rx=sub-parser-value-reused")
 	}
-	c.I.BytesList(before).BytesList(after)
-	for _, b := range before {
-		h265Parse(rx, mode, b)
-	}
-	h := h265Parse(rx, mode, in)
-	for _, a := range after {
-		h265Parse(rx, mode, a)
+	c.I.BytesList(before).BytesList(after).Bool(sub != nil)
+	var h h265Held
+	if sub != nil {
+		for _, b := range before {
+			h265SubParse(sub, b)
+		}
+		h = h265SubParse(sub, in)
+		for _, a := range after {
+			h265SubParse(sub, a)
+		}
+	} else {
+		for _, b := range before {
+			h265Parse(rx, mode, b)
+		}
+		h = h265Parse(rx, mode, in)
+		for _, a := range after {
+			h265Parse(rx, mode, a)
+		}
 	}
 	h.view(&c.O)
 	c.O.Bool(h265Head(in))
